@@ -16,7 +16,7 @@ UPLOAD_ROUTES = {
     "yandex": ["yandex.resources.upload_href", "yandex.upload.put", "yandex.operations.get", "yandex.resources.md5", "yandex.resources.move", "yandex.resources.delete"],
     "google": ["google.upload.init_create", "google.upload.init_update", "google.upload.put", "google.files.md5", "google.files.update", "google.files.delete"],
 }
-KINDS = ["http_4xx_json", "http_5xx_json", "http_5xx_text", "malformed_json", "missing_content_type", "reset_before_body", "reset_inside_body", "corrupt", "wrong_checksum"]
+KINDS = ["http_4xx_json", "http_5xx_json", "http_5xx_text", "http_3xx_json", "malformed_json", "missing_content_type", "reset_before_body", "reset_inside_body", "corrupt", "wrong_checksum"]
 
 
 class Scene:
@@ -220,7 +220,8 @@ def provider_sweep(ctx, rng, provider, budget):
                 # the move is answered 202 + operation: completes at once / after two in-progress polls / fails
                 points += [(q, "async"), (q, "async:polls=2"), (q, "async:fail"), (q, "async:polls=1:fail")]
         if budget is not None and len(points) > budget:
-            must = [p for p in points if p[0]["route"] in UPLOAD_ROUTES[provider] and (p[1] in ("http_5xx_json", "reset_inside_body", "corrupt", "wrong_checksum", "malformed_json") or p[1].startswith("async"))]
+            must = [p for p in points if p[0]["route"] in UPLOAD_ROUTES[provider] and (p[1] in ("http_5xx_json", "reset_inside_body", "corrupt", "wrong_checksum", "malformed_json") or p[1].startswith("async")
+                                       or (p[1] == "http_3xx_json" and p[0]["route"] in ("dropbox.move", "yandex.resources.move", "google.files.update")))]
             rest = [p for p in points if p not in must]
             points = rng.sample(must, min(len(must), budget * 2 // 3)) + rng.sample(rest, min(len(rest), budget - min(len(must), budget * 2 // 3)))
         n = 1
